@@ -833,6 +833,12 @@ func runHistory(c *fw.Ctx, idx int, kind string) fw.Result {
 		fg.reids(rq)
 		rq.finish()
 		if _, gerrs := gqlparser.LoadQuery(superGql, rq.Text); gerrs != nil {
+			if strings.Contains(gerrs.Error(), "conflict") {
+				// re-drawing the lookup ids gave two selections of one response key different id
+				// arguments (the generator had emitted them as duplicates): not a usable base operation
+				res.Count("base_operations_skipped_lookup_ids_conflict", 1)
+				continue
+			}
 			res.Broken("operation self-check: "+gerrs.Error(), map[string]any{"operation": rq.Text})
 			return res
 		}
